@@ -16,7 +16,12 @@ lists of strings) is a parameter of every function that reads it or calls one th
 ValueError on unequal lengths); `set(self.get_vertices())` is the list of the vertices — the set is only searched (`in`) and iterated by a loop that either raises
 DependentException or goes on, so neither the order nor repeated members matter; `x.copy()` of a string is x; a generator returns the list of what it yields;
 `for i in range(a, b)` with `break` is structural recursion over the indices a..b-1 (b read once); `raise X(...)` is FRaised (EUser "X"); a method whose body is one
-`return <condition>` is a bool function."""
+`return <condition>` is a bool function.
+Third group (the primitive edits): _find_in_leg, find, is_included, append, remove, replace.  A method that changes `self.legs` (insert / append / del / item store)
+returns the new legs; `self.is_check` is a bool parameter; `try: k = L.index(x) except ValueError: k = c` is the position or c; `for i, x in enumerate(L)` (L not
+changed in the body) and `for i in range(a, b, -1)` are structural recursion over the items computed at loop entry, `return` inside them leaves the function;
+`del L[i]`, `L.insert(i, x)` with Python's index normalisation (norm_idx / Model/Collection.norm_insert); `L[i][j] = x` stores into the inner list;
+`[L[i] for i in range(0, j)]` is the first j members."""
 import ast, os
 from py2coq import Unsupported, bad
 
@@ -50,12 +55,22 @@ class QFn:
         self.needs_legs = "self.legs" in src or any(f.needs_legs and ("self.%s(" % f.name) in src for f in tr.fns.values())
         if self.needs_legs: self.params.insert(0, ("self_legs", "legs"))
         self.purebool = False
-        if self.mutator:
+        self.mut_legs = any(k in src for k in ("self.legs.insert(", "self.legs.append(", "del self.legs[")) or any(
+            isinstance(n_, ast.Assign) and isinstance(n_.targets[0], ast.Subscript) and ast.unparse(n_.targets[0]).startswith("self.legs[") for n_ in ast.walk(node))
+        self.needs_check = "self.is_check" in src
+        if self.needs_check: self.params.insert(1 if self.needs_legs else 0, ("self_is_check", "bool"))
+        if self.mutator and self.mut_legs:
+            self.retnames = ["self_legs"]; self.ret = ["legs"]
+        elif r == "int": self.ret = ["int"]
+        elif r == "tuple[int, int]": self.ret = ["int", "int"]
+        elif self.mutator:
             self.retnames = [n for n, t in self.params if t == "list"]
             self.ret = ["list"] * len(self.retnames) if self.retnames else ["unit"]
         elif self.generator and r == "Generator[list[list[PauliString]], None, None]": self.ret = ["legs"]
         elif r == "list[PauliString]": self.ret = ["list"]
-        elif r == "bool": self.ret = ["bool"]; self.purebool = True
+        elif r == "bool":
+            self.ret = ["bool"]
+            self.purebool = len([x for x in node.body if not (isinstance(x, ast.Expr) and isinstance(x.value, ast.Constant))]) == 1
         elif r == "tuple[PauliString | None, list[PauliString] | None]": self.ret = ["ps", "list"]
         else: bad(node, "return type %s" % r)
         self.brk = None
@@ -74,6 +89,11 @@ class QFn:
         if isinstance(e, ast.Constant) and type(e.value) is int: return "%d" % e.value if e.value >= 0 else "(%d)" % e.value, "int", []
         if isinstance(e, ast.List) and not e.elts: return "(@nil pstr)", "list", []
         if ast.unparse(e) == "self.legs" and "self_legs" in env: return "v_self_legs", "legs", []
+        if isinstance(e, ast.UnaryOp) and isinstance(e.op, ast.USub) and isinstance(e.operand, ast.Constant) and type(e.operand.value) is int: return "(-%d)" % e.operand.value, "int", []
+        if isinstance(e, ast.List) and len(e.elts) == 1:
+            c, t, g = self.expr(e.elts[0], env)
+            if t != "ps": bad(e, "list literal of %s" % t)
+            return "[%s]" % c, "list", g
         if isinstance(e, ast.Call) and isinstance(e.func, ast.Name) and e.func.id == "len" and len(e.args) == 1 and not e.keywords:
             c, t, g = self.expr(e.args[0], env)
             if t not in ("list", "legs"): bad(e, "len of %s" % t)
@@ -110,6 +130,7 @@ class QFn:
         """-> list of (coq bool, guards) to be tested in order (short-circuit `and`)"""
         if isinstance(t, ast.BoolOp) and isinstance(t.op, ast.And):
             return [c for v in t.values for c in self.cond(v, env)]
+        if ast.unparse(t) == "self.is_check" and "self_is_check" in env: return [("v_self_is_check", [], None)]
         if isinstance(t, ast.BoolOp) and isinstance(t.op, ast.Or):
             parts = [self.cond(v, env) for v in t.values]
             if any(len(p_) != 1 or p_[0][1] or p_[0][2] is not None for p_ in parts): bad(t, "or of conditions that can raise")
@@ -206,6 +227,10 @@ class QFn:
                 cs = self.cond(s.value, env)
                 if len(cs) != 1 or cs[0][1] or cs[0][2] is not None: bad(s, "a bool function that can raise")
                 return cs[0][0]
+            if self.ret == ["bool"]:
+                cs = self.cond(s.value, env)
+                if len(cs) != 1 or cs[0][2] is not None: bad(s, "returned condition")
+                return self.guard(cs[0][1], "(FRet %s)" % cs[0][0])
             if isinstance(s.value, ast.Tuple):
                 if all(isinstance(x, ast.Constant) and x.value is None for x in s.value.elts): return "FNone"
                 vals = [self.expr(x, env) for x in s.value.elts]
@@ -219,15 +244,62 @@ class QFn:
             yes = self.block(s.body, env, (lambda e2: self.block(rest, e2, ft, cont)), cont) if not ends(s.body) else self.block(s.body, env, ft, cont)
             no = self.block(s.orelse, env, (lambda e2: self.block(rest, e2, ft, cont)), cont) if s.orelse else R(env)
             return self.branch(s.test, env, yes, no)
+        if isinstance(s, ast.Try) and not s.orelse and not s.finalbody and len(s.handlers) == 1 and ast.unparse(s.handlers[0].type) == "ValueError" and s.handlers[0].name is None \
+           and len(s.body) == 1 and len(s.handlers[0].body) == 1 and isinstance(s.body[0], ast.Assign) and isinstance(s.handlers[0].body[0], ast.Assign) \
+           and ast.unparse(s.body[0].targets[0]) == ast.unparse(s.handlers[0].body[0].targets[0]) and isinstance(s.body[0].targets[0], ast.Name) \
+           and isinstance(s.body[0].value, ast.Call) and isinstance(s.body[0].value.func, ast.Attribute) and s.body[0].value.func.attr == "index" and len(s.body[0].value.args) == 1:
+            # try: k = L.index(x)  except ValueError: k = <int>
+            nm = s.body[0].targets[0].id
+            L, tL, gL = self.expr(s.body[0].value.func.value, env); x, tx, gx = self.expr(s.body[0].value.args[0], env); d, td, gd = self.expr(s.handlers[0].body[0].value, env)
+            if (tL, tx, td) != ("list", "ps", "int") or gL or gx or gd or env.get(nm, "int") != "int": bad(s, "try around index")
+            env2 = dict(env); env2[nm] = "int"
+            return "(let v_%s := (match Collection.find %s %s with Some k_ => Z.of_nat k_ | None => %s end) in %s)" % (nm, x, L, d, R(env2))
+        if isinstance(s, ast.Delete) and len(s.targets) == 1 and isinstance(s.targets[0], ast.Subscript) and ast.unparse(s.targets[0].value) == "self.legs" and "self_legs" in env:
+            i, ti, gi_ = self.expr(s.targets[0].slice, env)
+            if ti != "int": bad(s, "del by %s" % ti)
+            return self.guard(gi_ + [("(idx_ok v_self_legs %s)" % i, "FRaised EIndex")], "(let v_self_legs := delete_atL (Z.to_nat (norm_idx (length v_self_legs) %s)) v_self_legs in %s)" % (i, R(env)))
+        if isinstance(s, ast.Expr) and isinstance(s.value, ast.Call) and isinstance(s.value.func, ast.Attribute) and ast.unparse(s.value.func.value) == "self.legs" and "self_legs" in env and not s.value.keywords:
+            if s.value.func.attr == "append" and len(s.value.args) == 1:
+                x, tx, gx = self.expr(s.value.args[0], env)
+                if tx != "list": bad(s, "legs.append of %s" % tx)
+                return self.guard(gx, "(let v_self_legs := v_self_legs ++ [%s] in %s)" % (x, R(env)))
+            if s.value.func.attr == "insert" and len(s.value.args) == 2:
+                i, ti, gi_ = self.expr(s.value.args[0], env); x, tx, gx = self.expr(s.value.args[1], env)
+                if (ti, tx) != ("int", "list"): bad(s, "legs.insert of %s, %s" % (ti, tx))
+                return self.guard(gi_ + gx, "(let v_self_legs := insert_atL (norm_insert (length v_self_legs) %s) %s v_self_legs in %s)" % (i, x, R(env)))
+        if isinstance(s, ast.Assign) and len(s.targets) == 1 and isinstance(s.targets[0], ast.Subscript) and isinstance(s.targets[0].value, ast.Subscript) \
+           and ast.unparse(s.targets[0].value.value) == "self.legs" and "self_legs" in env:
+            i, ti, gi_ = self.expr(s.targets[0].value.slice, env); j, tj, gj = self.expr(s.targets[0].slice, env); x, tx, gx = self.expr(s.value, env)
+            if (ti, tj, tx) != ("int", "int", "ps"): bad(s, "store into self.legs[%s][%s]" % (ti, tj))
+            return self.guard(gx + gi_ + gj + [("(idx_ok v_self_legs %s)" % i, "FRaised EIndex"), ("(idx_ok (list_get (@nil pstr) v_self_legs %s) %s)" % (i, j), "FRaised EIndex")],
+                              "(let v_self_legs := list_set v_self_legs %s (list_set (list_get (@nil pstr) v_self_legs %s) %s %s) in %s)" % (i, i, j, x, R(env)))
+        if isinstance(s, ast.For) and not s.orelse and isinstance(s.iter, ast.Call) and ast.unparse(s.iter.func) == "enumerate" and len(s.iter.args) == 1 \
+           and isinstance(s.target, ast.Tuple) and len(s.target.elts) == 2 and all(isinstance(x_, ast.Name) for x_ in s.target.elts):
+            return self.range_loop(s, rest, env, ft, cont, enum=True)
+        if isinstance(s, ast.For) and not s.orelse and isinstance(s.target, ast.Name) and isinstance(s.iter, ast.Call) and ast.unparse(s.iter.func) == "range" and len(s.iter.args) == 3 \
+           and ast.unparse(s.iter.args[2]) == "-1":
+            return self.range_loop(s, rest, env, ft, cont, down=True)
         if isinstance(s, ast.Assign) and len(s.targets) == 1:
             tg, v = s.targets[0], s.value
             if isinstance(v, ast.Call) and isinstance(v.func, ast.Name) and v.func.id == "set" and len(v.args) == 1 and self.callee(v.args[0]) is not None:
                 v = v.args[0]       # a set of strings, only iterated and searched: the list of its members (see the contracts)
+            if isinstance(v, ast.ListComp) and isinstance(tg, ast.Name) and len(v.generators) == 1 and not v.generators[0].ifs and isinstance(v.generators[0].target, ast.Name) \
+               and isinstance(v.generators[0].iter, ast.Call) and ast.unparse(v.generators[0].iter.func) == "range" and len(v.generators[0].iter.args) == 2 and ast.unparse(v.generators[0].iter.args[0]) == "0" \
+               and isinstance(v.elt, ast.Subscript) and isinstance(v.elt.slice, ast.Name) and v.elt.slice.id == v.generators[0].target.id:
+                # [L[i] for i in range(0, j)]: the first j members (IndexError if j exceeds the length)
+                L, tL, gL = self.expr(v.elt.value, env); j, tj, gj = self.expr(v.generators[0].iter.args[1], env)
+                if (tL, tj) != ("list", "int") or env.get(tg.id, "list") != "list": bad(s, "prefix comprehension")
+                env2 = dict(env); env2[tg.id] = "list"
+                return self.guard(gL + gj + [("(%s <=? Z.of_nat (length %s))" % (j, L), "FRaised EIndex")], "(let v_%s := firstn (Z.to_nat %s) %s in %s)" % (tg.id, j, L, R(env2)))
             if isinstance(v, ast.BinOp) and isinstance(v.op, ast.MatMult) and isinstance(tg, ast.Name):
                 x, tx, gx = self.expr(v.left, env); y, ty, gy = self.expr(v.right, env)
                 if (tx, ty) != ("ps", "ps") or env.get(tg.id, "ps") != "ps": bad(s, "@ on %s, %s" % (tx, ty))
                 env2 = dict(env); env2[tg.id] = "ps"
                 return self.guard(gx + gy, "(match multiply_code %s %s with Ok m_ => let v_%s := m_ in %s | ValueError => %s end)" % (x, y, tg.id, R(env2), VE))
+            if isinstance(v, ast.Subscript) and isinstance(v.slice, ast.Constant) and v.slice.value == 0 and self.callee(v.value) is not None and len(self.callee(v.value).ret) == 2 and isinstance(tg, ast.Name):
+                tmp = "snd%d_" % s.lineno
+                s2 = ast.copy_location(ast.Assign(targets=[ast.Tuple(elts=[ast.Name(id=tg.id, ctx=ast.Store()), ast.Name(id=tmp, ctx=ast.Store())], ctx=ast.Store())], value=v.value), s)
+                return self.block([s2] + rest, env, ft, cont)
             fn = self.callee(v)
             if fn is not None:
                 args, g = self.call_args(fn, v, env)
@@ -339,25 +411,38 @@ class QFn:
             name, ps, " ".join("(v_%s : %s)" % (n, CT[env[n]]) for n in vs), self.rett(), inner))
         return "(%s fuel %s%s)" % (name, start, " ".join("v_" + n for n in vs))
 
-    def range_loop(self, s, rest, env, ft, cont):
-        """for i in range(a, b): ... (with break / continue): a Fixpoint by structural recursion over the indices; what follows the loop is inside it"""
+    def range_loop(self, s, rest, env, ft, cont, enum=False, down=False):
+        """for i in range(a, b) / range(a, b, -1) / for i, x in enumerate(L): ... (with break / continue / return): a Fixpoint by structural recursion over the
+        items (computed once at loop entry, as Python's range and — for a list the body does not change — enumerate do); what follows the loop is inside it"""
         if cont is not None or self.brk is not None: bad(s, "a nested loop of this kind")
-        a, ta, ga = self.expr(s.iter.args[0], env); b, tb, gb = self.expr(s.iter.args[1], env)
-        if (ta, tb) != ("int", "int"): bad(s, "range of %s, %s" % (ta, tb))
-        x = s.target.id
-        if x in env: bad(s, "loop variable shadows a local")
+        benv = dict(env)
+        if enum:
+            L, tL, gL = self.expr(s.iter.args[0], env)
+            if tL not in ELT or gL: bad(s, "enumerate of %s" % tL)
+            if any(isinstance(n_, (ast.Delete,)) or (isinstance(n_, ast.Attribute) and n_.attr in ("insert", "append", "remove")) for b_ in s.body for n_ in ast.walk(b_)): bad(s, "the enumerated list is changed in the loop")
+            xi, xv = s.target.elts[0].id, s.target.elts[1].id
+            benv[xi] = "int"; benv[xv] = ELT[tL]
+            items, ity, ipat, g0 = "(combine (map Z.of_nat (seq 0 (length %s))) %s)" % (L, L), "(Z * %s)" % CT[ELT[tL]], "(v_%s, v_%s)" % (xi, xv), []
+            fresh = [xi, xv]
+        else:
+            a, ta, ga = self.expr(s.iter.args[0], env); b, tb, gb = self.expr(s.iter.args[1], env)
+            if (ta, tb) != ("int", "int"): bad(s, "range of %s, %s" % (ta, tb))
+            benv[s.target.id] = "int"
+            items = ("(map (fun k_ => %s - Z.of_nat k_) (seq 0 (Z.to_nat (%s - %s))))" % (a, a, b)) if down else ("(map (fun k_ => %s + Z.of_nat k_) (seq 0 (Z.to_nat (%s - %s))))" % (a, b, a))
+            ity, ipat, g0 = "Z", "v_" + s.target.id, ga + gb
+            fresh = [s.target.id]
+        if any(x in env for x in fresh): bad(s, "loop variable shadows a local")
         self.nloop += 1
         name = "%s_loop%d" % (self.coq, self.nloop)
         vs = list(env)
         after = self.block(rest, env, ft, None)
-        benv = dict(env); benv[x] = "int"
         again = lambda e2: "(%s rest_ %s)" % (name, " ".join("v_" + n for n in vs))
         self.brk = lambda e2: after
         body = self.block(s.body, benv, again, again)
         self.brk = None
-        self.aux.append("Fixpoint %s (idx_ : list Z) %s {struct idx_} : fres (%s) :=\n  match idx_ with [] => %s | v_%s :: rest_ =>\n  %s\n  end." % (
-            name, " ".join("(v_%s : %s)" % (n, CT[env[n]]) for n in vs), self.rett(), after, x, body))
-        return self.guard(ga + gb, "(%s (map (fun k_ => %s + Z.of_nat k_) (seq 0 (Z.to_nat (%s - %s)))) %s)" % (name, a, b, a, " ".join("v_" + n for n in vs)))
+        self.aux.append("Fixpoint %s (idx_ : list %s) %s {struct idx_} : fres (%s) :=\n  match idx_ with [] => %s | %s :: rest_ =>\n  %s\n  end." % (
+            name, ity, " ".join("(v_%s : %s)" % (n, CT[env[n]]) for n in vs), self.rett(), after, ipat, body))
+        return self.guard(g0, "(%s %s %s)" % (name, items, " ".join("v_" + n for n in vs)))
 
     def callee(self, v):
         if isinstance(v, ast.Call) and isinstance(v.func, ast.Attribute) and isinstance(v.func.value, ast.Name) and v.func.value.id == "self" and not v.keywords:
@@ -414,11 +499,15 @@ class QFn:
 
 class QueueTranslator:
     WANT = ["_get_anti_commutates", "_get_max_connected", "_append_to_queue", "_get_queue",
-            "is_empty_legs", "get_vertices", "_gen_one_legs", "get_one_vertices", "check_dependency_one_leg"]
+            "is_empty_legs", "get_vertices", "_gen_one_legs", "get_one_vertices", "check_dependency_one_leg",
+            "_find_in_leg", "find", "is_included", "append", "remove", "replace"]
     HEADER = """(* GENERATED by tools/py2coq.py (py2coq_queue.py) from src/paulie/classifier/morph_factory.py — do not edit *)
 From PauLieRefine Require Import PySem.
 From PauLie Require Import Pauli Collection.
 Open Scope Z_scope.
+Fixpoint insert_atL {A} (i : nat) (x : A) (l : list A) : list A := match i, l with O, _ => x :: l | S i', a :: t => a :: insert_atL i' x t | S _, [] => [x] end.
+Fixpoint delete_atL {A} (i : nat) (l : list A) : list A := match l, i with [], _ => [] | _ :: t, O => t | a :: t, S i' => a :: delete_atL i' t end.
+Definition norm_idx (len : nat) (i : Z) : Z := if i <? 0 then i + Z.of_nat len else i.
 """
     def __init__(self, repo):
         path = os.path.join(repo, "src", "paulie", "classifier", "morph_factory.py")
